@@ -270,6 +270,9 @@ def _sorted(it, xs, key=None, reverse=False):
         keys = [it.call(key, [x], {}) for x in items]
     else:
         keys = items
+    if key is None and all(isinstance(k, tuple) and k and isinstance(k[0], str) for k in keys) and len({k[0] for k in keys}) == len(keys):
+        # tuples with distinct leading strings: the order is decided by the first component alone
+        keys = [k[0] for k in keys]
     if any(_has_sym(k) for k in keys):
         raise Unsupported("sorted() with symbolic keys")
     try:
@@ -384,7 +387,8 @@ _BUILTIN_IMPL = {
     "str": _str,
     "repr": lambda it, v: it.format_value(v, 114),
     "callable": _callable,
-    "list": lambda it, xs=(): ListTerm(xs.t) if isinstance(xs, ListTerm) else list(it.iterate(xs)),
+    "list": lambda it, xs=(): ListTerm(xs.t) if isinstance(xs, ListTerm) else (
+        ListTerm(xs.term) if isinstance(xs, SymSeq) and getattr(xs, "term", None) is not None else list(it.iterate(xs))),
     "tuple": lambda it, xs=(): tuple(it.iterate(xs)),
     "set": lambda it, xs=(): make_set(it, it.iterate(xs)),
     "frozenset": lambda it, xs=(): make_set(it, it.iterate(xs), frozen=True),
@@ -488,6 +492,9 @@ def native_getattr(it, o, name):
 
 
 def _super_lookup(o, name):
+    if isinstance(o.self_v, ClassV) and type in o.cls.mro:
+        # super() inside a metaclass method: continue along the metaclass MRO
+        return o.cls.lookup(name, after=o.cls)
     cls = o.self_v.cls if isinstance(o.self_v, (Obj, SymObj)) else o.self_v
     return cls.lookup(name, after=o.cls)
 
@@ -619,6 +626,9 @@ def sym_attr(it, v, name):
         if name == "strip":
             f = z3.Function("str_strip", z3.StringSort(), z3.StringSort())
             return SummaryFn("str.strip", lambda it_, a, k: SStr(f(v.t)))
+    if v.kind == "val" and name in getattr(it, "val_attrs", ()):
+        f = z3.Function("attr_" + name, Val, Val)
+        return SVal(f(v.t))
     raise Unsupported(f"attribute {name} of symbolic {v.kind}")
 
 
@@ -694,6 +704,8 @@ def symseq_attr(it, o, name):
 
 
 def seq_binop(it, op, a, b):
+    if isinstance(op, ast.Add):
+        return ListTerm(_cat(listterm_of(it, a), listterm_of(it, b)))
     raise Unsupported("operator on symbolic sequences")
 
 
